@@ -56,7 +56,7 @@ def main(ctx):
     ctx.coverage["traces_validated_against_impl"] = int(ctx.counters["evaluations"])
     ctx.coverage["distinct_nontrivial"] = int(ctx.counters["negotiated"])
     for n in ("tuples", "negotiated", "declined_by_ctor", "messages_checked", "transfer_execs",
-              "ext:deflate", "ext:bzip2", "ext:brotli", "reject_cases", "reject_refused",
+              "ext:deflate", "ext:bzip2", "ext:brotli", "prepared_messages", "reject_cases", "reject_refused",
               "valid_response_accepted", "badoffer_cases", "takeover_both", "no_takeover_seen",
               "small_window_seen"):
         ctx.require(n)
@@ -338,7 +338,7 @@ def _job_transfer(a, env):
     persig = {}
     evals = 0
     for vname, offer, s_accept, c_accept in _ext_objects(ext):
-        for fragsize in (None, 1, 7, 1000):
+        for fragsize in (None, 1, 7, 1000, "prepared"):      # "prepared": the prepared-message API
             for dnc_idx in (None, 1):
                 use = seqs if (fragsize in (None, 7) and dnc_idx is None) or tier == "thorough" else seqs[::7]
                 for seq in use:
@@ -370,7 +370,12 @@ def _job_transfer(a, env):
                         for i, k in enumerate(seq):
                             m, b = kinds[k]
                             dnc = dnc_idx == i
-                            snd.proto.sendMessage(m, b, fragmentSize=fragsize, doNotCompress=dnc)
+                            if fragsize == "prepared":
+                                snd.proto.sendPreparedMessage(
+                                    snd.proto.factory.prepareMessage(m, b, doNotCompress=dnc))
+                                stats["prepared_messages"] = stats.get("prepared_messages", 0) + 1
+                            else:
+                                snd.proto.sendMessage(m, b, fragmentSize=fragsize, doNotCompress=dnc)
                             sent.append((m, b, dnc))
                     except Exception as e:
                         err = e
